@@ -767,7 +767,7 @@ DOC_PADS = ['#', '##', '@', '@@@', '#@', '%04d', '%d', '$F3', '$F', '<UDIM>', '%
 
 def c12_cases(rng, tier):
     out = []
-    n = 2500 if tier == 'quick' else 120000
+    n = 2500 if tier == 'quick' else 50000
     tries = 0
     while len(out) < n and tries < n * 5:
         tries += 1
